@@ -61,7 +61,7 @@ impl Ev {
         match self {
             Ev::P(..) => 0,
             Ev::A => 1,
-            Ev::E(e) => 2 + (*e & 1),
+            Ev::E(e) => 2 + (*e % 3),
         }
     }
     pub fn is_present(&self) -> bool {
@@ -83,8 +83,21 @@ pub fn err_code(e: Error<E>) -> i32 {
         _ => -2,
     }
 }
+/// code 0 stands for `Error::FromNone` (observed as -1 by `err_code`), everything else for `Error::Other(code)`
 pub fn mk_err(code: u8) -> Error<E> {
-    Error::Other(code)
+    if code == 0 {
+        Error::FromNone
+    } else {
+        Error::Other(code)
+    }
+}
+/// what `err_code` reports for an error injected with `mk_err(code)`
+pub fn exp_code(code: u8) -> i32 {
+    if code == 0 {
+        -1
+    } else {
+        code as i32
+    }
 }
 
 /// Normalised observation of a `get()`.
